@@ -56,6 +56,42 @@ theorem largestOf_mem (cs : List (List Nat)) (h : ∃ c ∈ cs, c ≠ []) : larg
     | cons a t => simp at this
   · exact h1
 
+theorem largest_fold_keep (l : List (List Nat)) (best : List Nat) (h : ∀ a ∈ l, a.length ≤ best.length) :
+    l.foldl (fun best c => if c.length > best.length then c else best) best = best := by
+  induction l with
+  | nil => rfl
+  | cons a l ih =>
+    have ha : ¬ a.length > best.length := by
+      have := h a List.mem_cons_self
+      omega
+    simp only [List.foldl_cons, ha, if_false]
+    exact ih (fun b hb => h b (List.mem_cons_of_mem _ hb))
+
+theorem largest_fold_lt (l : List (List Nat)) (best : List Nat) (k : Nat) (h : ∀ a ∈ l, a.length < k)
+    (hb : best.length < k) :
+    (l.foldl (fun best c => if c.length > best.length then c else best) best).length < k := by
+  induction l generalizing best with
+  | nil => exact hb
+  | cons a l ih =>
+    simp only [List.foldl_cons]
+    apply ih _ (fun b hb => h b (List.mem_cons_of_mem _ hb))
+    split
+    · exact h a List.mem_cons_self
+    · exact hb
+
+/-- ties: the selection returns the *first* component of maximal size -/
+theorem largestOf_first (pre suf : List (List Nat)) (c : List Nat) (hc : c ≠ [])
+    (hpre : ∀ a ∈ pre, a.length < c.length) (hsuf : ∀ a ∈ suf, a.length ≤ c.length) :
+    largestOf (pre ++ c :: suf) = c := by
+  unfold largestOf
+  rw [List.foldl_append, List.foldl_cons]
+  have hlt := largest_fold_lt pre [] c.length hpre (by
+    cases c with
+    | nil => exact absurd rfl hc
+    | cons a t => simp)
+  rw [if_pos hlt]
+  exact largest_fold_keep suf c hsuf
+
 /-! ### reachability that avoids a set
 
 `RA E A x y`: there is a walk `x → … → y` along `E` none of whose vertices (end points included)
@@ -736,6 +772,51 @@ theorem pass2_spec {g : Graph} (h : g.WF) {S : List Nat} (hS : StackOk g S) :
           · exact h.reach_lt ((hclass x).1 hx).1 hvn
       obtain ⟨cs, hcs, hgood⟩ := ih vis' (C.reverse :: acc) hI'
       exact ⟨cs, by simp [pass2, hvis, hr, hcs], hgood⟩
+
+/-! ### the graph the loader builds is well formed -/
+
+theorem ofEdges_edge (n : Nat) (es : List (Nat × Nat)) (u v : Nat) :
+    (Graph.ofEdges n es).Edge u v ↔ (u, v) ∈ es := by
+  unfold Graph.Edge Graph.ofEdges
+  simp only [List.getElem?_toArray]
+  exact (List.mem_iff_getElem? (a := (u, v)) (l := es)).symm
+
+theorem ofEdges_outEdges (n : Nat) (es : List (Nat × Nat)) (v : Nat) (hv : v < n) :
+    (Graph.ofEdges n es).outEdges v =
+      (List.range es.length).filter (fun e => (es[e]?).map (·.1) == some v) := by
+  simp [Graph.outEdges, Graph.ofEdges, hv]
+
+theorem ofEdges_inEdges (n : Nat) (es : List (Nat × Nat)) (v : Nat) (hv : v < n) :
+    (Graph.ofEdges n es).inEdges v =
+      (List.range es.length).filter (fun e => (es[e]?).map (·.2) == some v) := by
+  simp [Graph.inEdges, Graph.ofEdges, hv]
+
+theorem ofEdges_wfb (n : Nat) (es : List (Nat × Nat)) (h : ∀ p ∈ es, p.1 < n ∧ p.2 < n) :
+    (Graph.ofEdges n es).wfb = true := by
+  simp only [Graph.wfb, Bool.and_eq_true, beq_iff_eq, List.all_eq_true, decide_eq_true_eq,
+    List.mem_range]
+  refine ⟨⟨⟨⟨⟨?_, ?_⟩, ?_⟩, ?_⟩, ?_⟩, ?_⟩
+  · simp [Graph.ofEdges]
+  · simp [Graph.ofEdges]
+  · intro p hp
+    exact h p (by simpa [Graph.ofEdges] using hp)
+  · intro v hv e he
+    have hv' : v < (Graph.ofEdges n es).n := hv
+    rw [ofEdges_outEdges n es v hv] at he
+    simpa [Graph.srcOf, Graph.ofEdges] using (List.mem_filter.1 he).2
+  · intro v hv e he
+    rw [ofEdges_inEdges n es v hv] at he
+    simpa [Graph.dstOf, Graph.ofEdges] using (List.mem_filter.1 he).2
+  · intro e he
+    have he' : e < es.length := by simpa [Graph.ofEdges] using he
+    have hget : (Graph.ofEdges n es).edges[e]? = some es[e] := by
+      simp [Graph.ofEdges, he']
+    rw [hget]
+    have hm : es[e] ∈ es := List.getElem_mem he'
+    obtain ⟨hs, hd⟩ := h _ hm
+    simp only [Bool.and_eq_true, List.contains_iff_mem]
+    rw [ofEdges_outEdges n es _ hs, ofEdges_inEdges n es _ hd]
+    simp [he']
 
 /-- Kosaraju's algorithm as written in `scc.rs` is correct on every well-formed graph: it returns (no error,
 fuel not exhausted) the list of mutual-reachability classes -/
